@@ -498,9 +498,42 @@ def _halfstep_form(e: ast.AST, local_fns: Dict[str, ast.AST], depth: int = 0):
             if isinstance(x, ast.Call) and isinstance(x.func, ast.Name) and x.func.id in local_fns:
                 v = _fn_value(x.func, local_fns)
                 return None if v is None else eval_form(v, leaf)
+            if isinstance(x, ast.Call) and isinstance(x.func, ast.Attribute) \
+                    and dotted(x.func.value) == "self" and _METHODS.get(x.func.attr) is not None:
+                # a helper method of the same class: its (memo-transparent) result expression
+                from rules.c12 import _result_exprs
+                rs = _result_exprs(_METHODS[x.func.attr])
+                forms = {repr(eval_form(r, leaf)) for r in rs}
+                if len(rs) >= 1 and len(forms) == 1:
+                    return eval_form(rs[0], leaf)
             return None
         return (part, eval_form(e.args[0], leaf))
     return None
+
+
+_METHODS: Dict[str, Unit] = {}
+
+
+def h5(prog: Program, chk: Check) -> None:
+    chk.rule("H5", "forward propagators and propagator derivatives of a ParameterizedSystem are "
+             "functions of (dt, parameters) of the current call: no hand-written memo in the class "
+             "leaves an argument its value depends on out of the key (the same object is used "
+             "with several time steps in a dt-convergence study)", floor=1)
+    from rules.c20 import _a7_unit
+    ci = prog.cls("system:ParameterizedSystem")
+    n = 0
+    for mu in ci.methods.values():
+        for w in [mu] + [v for v in prog.all_nested(mu) if not isinstance(v.node, ast.Lambda)]:
+            n += 1
+            for (st, attr, key_expr, covered, missing) in _a7_unit(w):
+                chk.saw(w)
+                chk.add("H5", w, f"memo {attr}[{norm(key_expr)}] <- {norm(st.value)[:40]}",
+                        not missing, f"keyed / validated by {covered}" if not missing else
+                        f"the stored value depends on {missing}, which is not part of the key: the "
+                        f"forward pass and the derivatives then belong to different step lengths",
+                        st)
+    chk.add("H5", prog.module("system"), f"{n} functions of ParameterizedSystem scanned for memo "
+            f"idioms", n >= 8, "" if n >= 8 else "the class shrank below what was confirmed by hand")
 
 
 def h4(prog: Program, chk: Check) -> None:
@@ -510,6 +543,9 @@ def h4(prog: Program, chk: Check) -> None:
              "forward pass, real and imaginary part recombined as re + 1j*im; a hand-written "
              "finite secant of the generator or propagator is not a derivative", floor=3)
     gp = prog.unit("system:ParameterizedSystem.get_propagators")
+    _METHODS.clear()
+    _METHODS.update({k: v for k, v in prog.cls("system:ParameterizedSystem").methods.items()
+                     if k not in ("liouvillian",)})
     fwd = []
     for nu in prog.all_nested(gp):
         if isinstance(nu.node, ast.FunctionDef):
@@ -624,6 +660,7 @@ def run(prog: Program, chk: Check) -> None:
     chk.assumptions = ["tensornetwork: contraction puts the remaining edges of the first node "
                        "before those of the second (axis order depends on contraction order)",
                        "loop-direction idiom table (enumerate / reversed / [::-1] / .reverse())"]
-    h1(prog, chk)
-    h2_h3(prog, chk)
-    h4(prog, chk)
+    chk.call(h1, prog, chk)
+    chk.call(h2_h3, prog, chk)
+    chk.call(h4, prog, chk)
+    chk.call(h5, prog, chk)
